@@ -55,9 +55,25 @@ def r1(ctx):
         pf_f += fe
     if not ext:
         ctx.bad(R, "data:in-order", b.span, "no recv_buf growth found in handle_established")
+    SEQ_, RN_ = "field:turmoil_net::kernel::packet::TcpSegment::seq", "field:" + T + "rcv_nxt"
+
+    def p_seq(o):
+        # `seq == rcv_nxt`, possibly folded into a flag by an extracted predicate (`carries_new_data(tcb, s)`)
+        if o["k"] != "bin" or o["op"] not in ("Eq", "Ne"):
+            return False
+        a0, a1 = Slicer(ctx.w).atoms(b, o["a"]), Slicer(ctx.w).atoms(b, o["b"])
+        if not ((SEQ_ in a0 and RN_ in a1) or (SEQ_ in a1 and RN_ in a0)) or any(x.startswith("call:bytes::Bytes::len") for x in a0 | a1):
+            return False
+        return True if o["op"] == "Eq" else "neg"
+
+    def p_nofin(o):
+        return "neg" if o["k"] == "place" and place_last_field(o["p"]) == T + "peer_fin" else False
+
+    def in_order(x):
+        return (bool(seq_eq) and b.dominated_by_any(x, edges=seq_eq)) or guarded_by_pred(b, x, p_seq)
     for bb, t in ext:
-        ok1 = bool(seq_eq) and b.dominated_by_any(bb, edges=seq_eq)
-        ok2 = bool(pf_f) and b.dominated_by_any(bb, edges=pf_f)
+        ok1 = in_order(bb)
+        ok2 = (bool(pf_f) and b.dominated_by_any(bb, edges=pf_f)) or guarded_by_pred(b, bb, p_nofin)
         ctx.inst(R, "data:in-order", ok1 and ok2, t["s"], "payload accepted only at seq == rcv_nxt and before the peer's FIN" if ok1 and ok2 else
                  "recv_buf grows " + ("" if ok1 else "without the `seq == rcv_nxt` test (gaps / overlaps / duplicates are accepted) ") +
                  ("" if ok2 else "after the peer's FIN"))
@@ -67,7 +83,7 @@ def r1(ctx):
         ctx.inst(R, "data:clamped-slice", bool(clamp) and "field:" + T + "recv_buf" in at_slice or bool(clamp), t["s"],
                  "accepted slice is clamped (min) against the free room" if clamp else "the accepted slice is not clamped")
         # rcv_nxt writes dominated by this acceptance region
-        wr = [(x, s) for x, i, s in b.all_stmts() if place_last_field(s["p"]) == T + "rcv_nxt" and b.dominated_by_any(x, edges=seq_eq) and x in b.reachable(bb) | {bb}
+        wr = [(x, s) for x, i, s in b.all_stmts() if place_last_field(s["p"]) == T + "rcv_nxt" and in_order(x) and x in b.reachable(bb) | {bb}
               and not any(b.dominated_by_edge(x, e) for e in _fin_edges(ctx, b))]
         okadv = False
         for x, s in wr:
@@ -175,8 +191,8 @@ def r3(ctx):
         ctx.inst(R, "check_retx:rearms-round-counter", bool(zero) and not leak, b.term(e[0]).get("s", b.span), "egress_since_ack := 0 on every path that retransmits" if zero and not leak else
                  "a path through check_retx retransmits (handshake segment or rewind) without setting egress_since_ack back to 0: the connection is over the threshold again in the next "
                  "round and burns one attempt per round - a handshake whose round trip exceeds threshold + retx_max rounds (4 ms of latency) is aborted with TimedOut")
-    at = list(b.calls(re.compile(r"^turmoil_net::kernel::tcp::(abort_timed_out|abort_with)$")))
-    eh = list(b.calls("turmoil_net::kernel::tcp::emit_handshake"))
+    at = [(fb, bb, t) for fb in ctx.w.family(b.id) for bb, t in fb.calls(re.compile(r"^turmoil_net::kernel::tcp::(abort_timed_out|abort_with)$"))]
+    eh = [(fb, bb, t) for fb in ctx.w.family(b.id) for bb, t in fb.calls("turmoil_net::kernel::tcp::emit_handshake")]
     ctx.inst(R, "check_retx:abort-reaches-abort_timed_out", len(at) == 1, b.span, "abort list is drained into abort_timed_out" if at else "abort list is never acted upon")
     ctx.inst(R, "check_retx:resend-reaches-emit_handshake", len(eh) == 1, b.span, "resend list is drained into emit_handshake" if eh else "resend list is never acted upon")
     # budget test: the abort push hangs on the true edge of Ge(retx_attempts, retx_max)
@@ -186,7 +202,12 @@ def r3(ctx):
         a1 = Slicer(ctx.w).atoms(b, o["b"])
         if "field:" + T + "retx_attempts" in a0 and "field:turmoil_net::kernel::Kernel::retx_max" in a1:
             ge.append((o["op"], te))
-    okb = len(ge) == 1 and ge[0][0] == "Ge"
+    # `attempts >= max -> abort` or, the other way round, `attempts < max -> retransmit, else abort`
+    okb = len(ge) == 1 and ge[0][0] in ("Ge", "Lt")
+    if okb:
+        ab_e = [e for sbb, te, fe, o in guards_on(b, lambda o: o["k"] == "bin" and o["op"] == ge[0][0] and "field:" + T + "retx_attempts" in Slicer(ctx.w).atoms(b, o["a"]))
+                for e in (te if ge[0][0] == "Ge" else fe)]
+        okb = bool(ab_e) and any(x in b.reachable(e[1], stop=nxt) for e in ab_e for x in pushes) and             not any((place_last_field(s["p"]) == T + "retx_attempts") for e in ab_e for x in b.reachable(e[1], stop=nxt) for s in b.stmts(x))
     ctx.inst(R, "check_retx:budget-test", okb, b.span, "a connection is aborted exactly when retx_attempts >= retx_max" if okb else
              f"the retransmit budget test is not `retx_attempts >= retx_max` (found {[g[0] for g in ge]}): the connection is aborted one attempt early / late or never")
     ctx.floor(R, 4)
@@ -534,7 +555,7 @@ def r15(ctx):
         for sbb, tt in switch_blocks(pr):
             if len(pr.succ(sbb)) < 2 or not any(pr.dominated_by_edge(bb, (sbb, x)) for x in pr.succ(sbb)):
                 continue
-            if PF in Slicer(ctx.w).atoms(pr, tt["d"]):
+            if PF in Slicer(ctx.w, control=True).atoms(pr, tt["d"]):   # (`!peer_fin && n >= half` makes peer_fin a control dependence of the flag)
                 ok = True
         ctx.inst(R, f"poll_recv:window-update-needs-open-direction#{n}", ok, t["s"], "no window update once the peer's FIN has arrived" if ok else
                  "poll_recv emits its window update without looking at Tcb::peer_fin: after both FINs a reader that drains a large buffer in pieces "
